@@ -3,7 +3,7 @@
    `run` is what the interpreter model holds after its n-th step (C03). *)
 From Coq Require Import List ZArith String Bool Arith Lia.
 Import ListNotations.
-From Dagrt Require Import Lang LangProofs Builder Sched FortranTarget.
+From Dagrt Require Import Lang LangCheck LangProofs Builder Sched FortranTarget.
 Open Scope Z_scope.
 
 (* ---------- small facts ---------- *)
@@ -809,3 +809,205 @@ Section Pipeline.
                                (isteps F g tids persistent P n s empty first).
   Proof. intros _ HS n s first Hi. apply pipeline; [exact HS|apply init_CRel, Hi]. Qed.
 End Pipeline.
+
+(* ---------- the statement, as a function of the shape switches ---------- *)
+Definition pipeline_statement (cond_honoured ite_flag_first ubound_m1 switch_exits next_first : bool) : Prop :=
+  forall F g tids (is_state persistent : var -> bool) lsr lbr tok bl P,
+    (forall y, is_state y = persistent y || is_ret y) ->
+    build_prog lsr lbr is_state tok bl = Some P ->
+    supported is_state P = true ->
+    forall n s first, init_ok persistent s ->
+      orel is_state persistent
+           (fcalls F g cond_honoured ite_flag_first ubound_m1 switch_exits next_first tids is_state P n s first)
+           (isteps F g tids persistent P n s empty first).
+
+Definition compiles_statement (ne_fortran : bool) : Prop := forall P, compiles ne_fortran P = true.
+
+Theorem pipeline_holds ff : pipeline_statement true ff true true true.
+Proof.
+  intros F g tids is_state persistent lsr lbr tok bl P Hs Hb HS n s first Hi.
+  eapply pipeline_builder; eauto.
+Qed.
+
+Theorem compiles_holds : compiles_statement true.
+Proof. intros P. reflexivity. Qed.
+
+(* ---------- a boolean reading of orel, for witnesses ---------- *)
+Definition agree_on (univ : list var) (t : fout) (i : iout) : bool :=
+  match t, i with
+  | FO s_t nx, IO s_i r nx' =>
+      String.eqb nx nx' && forallb (fun y => opt_eqb val_eqb (s_t y) (held s_i r y)) univ
+  | FOHalt s_t k, IOHalt s_i r k' =>
+      String.eqb k k' && forallb (fun y => opt_eqb val_eqb (s_t y) (held s_i r y)) univ
+  | FOInvalid, IOInvalid => true
+  | _, _ => false
+  end.
+Definition defined_pair (t : fout) (i : iout) : bool :=
+  match t, i with FOUndef, _ => false | _, IOCrash => false | _, _ => true end.
+
+Lemma list_eqb_refl {A} (eqb : A -> A -> bool) : (forall a, eqb a a = true) -> forall l, list_eqb eqb l l = true.
+Proof. intros H. induction l; cbn; [reflexivity|]. now rewrite H, IHl. Qed.
+Lemma val_eqb_refl v : val_eqb v v = true.
+Proof.
+  destruct v; cbn; try reflexivity; [apply Z.eqb_refl|now destruct b|apply list_eqb_refl, Z.eqb_refl].
+Qed.
+
+Lemma orel_agree_on is_state persistent univ t i :
+  orel is_state persistent t i -> defined_pair t i = true ->
+  forallb is_state univ = true -> agree_on univ t i = true.
+Proof.
+  intros H Hd Hu. rewrite forallb_forall in Hu.
+  assert (G : forall s_t s_i r, CRel is_state persistent s_t s_i r ->
+                forallb (fun y => opt_eqb val_eqb (s_t y) (held s_i r y)) univ = true).
+  { intros s_t s_i r [H1 _]. apply forallb_forall. intros y Hy. rewrite (H1 y (Hu y Hy)).
+    destruct (held s_i r y); cbn; [apply val_eqb_refl|reflexivity]. }
+  destruct t, i; cbn in *; try discriminate; try contradiction; try reflexivity.
+  - destruct H as [-> H]. now rewrite String.eqb_refl, (G _ _ _ H).
+  - destruct H as [-> H]. now rewrite String.eqb_refl, (G _ _ _ H).
+Qed.
+
+(* ---------- concrete instances: GenLang's name classes, the harness's functions ---------- *)
+Definition st_of : var -> bool := is_state_of ["<t>"; "<dt>"] ["<state>"; "<p>"; "<ret_time_id>"; "<ret_time>"; "<ret_state>"].
+Definition ps_of : var -> bool := is_state_of ["<t>"; "<dt>"] ["<state>"; "<p>"].
+
+Lemma st_split y : st_of y = ps_of y || is_ret y.
+Proof.
+  unfold st_of, ps_of, is_state_of, is_ret, ret_prefixes, ret_tid_prefix, ret_time_prefix, ret_state_prefix.
+  cbn [existsb Builder.mem].
+  repeat match goal with |- context [String.prefix ?p y] => destruct (String.prefix p y) end;
+    repeat match goal with |- context [String.eqb y ?p] => destruct (String.eqb y p) end; reflexivity.
+Qed.
+
+Lemma init_ok_ps (l : list (var * val)) :
+  forallb (fun p => ps_of (fst p) && negb (is_ret (fst p))) l = true ->
+  init_ok ps_of (fold_left (fun s p => upd s (fst p) (snd p)) l empty).
+Proof.
+  assert (G : forall l s, (forall p, In p l -> ps_of (fst p) = true /\ is_ret (fst p) = false) ->
+              init_ok ps_of s -> init_ok ps_of (fold_left (fun s p => upd s (fst p) (snd p)) l s)).
+  { induction l0 as [|p l0 IH]; intros s Hl Hs; cbn [fold_left]; [exact Hs|].
+    apply IH; [intros q Hq; apply Hl; now right|].
+    destruct (Hl p (or_introl eq_refl)) as [A B]. destruct Hs as [H1 H2]. split; intros y Hy.
+    - rewrite upd_other; [apply H1, Hy|]. intros ->. congruence.
+    - rewrite upd_other; [apply H2, Hy|]. intros ->. congruence. }
+  intros H. apply G.
+  - intros p Hp. rewrite forallb_forall in H. specialize (H p Hp).
+    rewrite andb_true_iff, negb_true_iff in H. exact H.
+  - split; reflexivity.
+Qed.
+
+Definition mk_store (l : list (var * val)) : store := fold_left (fun s p => upd s (fst p) (snd p)) l empty.
+
+(* every refutation below has this form *)
+Lemma refute ch ff um sw nf bl P init n first univ :
+  build_prog true true st_of "<exec>" bl = Some P ->
+  supported st_of P = true ->
+  forallb (fun p => ps_of (fst p) && negb (is_ret (fst p))) init = true ->
+  forallb st_of univ = true ->
+  (let t := fcalls F03 true ch ff um sw nf [] st_of P n (mk_store init) first in
+   let i := isteps F03 true [] ps_of P n (mk_store init) empty first in
+   defined_pair t i && negb (agree_on univ t i)) = true ->
+  ~ pipeline_statement ch ff um sw nf.
+Proof.
+  intros Hb HS Hi Hu Hw Hst. cbv zeta in Hw. apply andb_true_iff in Hw. destruct Hw as [Hd Hn].
+  specialize (Hst F03 true [] st_of ps_of true true "<exec>" bl P st_split Hb HS n (mk_store init) first
+                  (init_ok_ps init Hi)).
+  rewrite (orel_agree_on st_of ps_of univ _ _ Hst Hd Hu) in Hn. discriminate.
+Qed.
+
+Definition ph1 (calls : list bcall) : list bphase := [mkB "pa" "pa" calls].
+Definition gt (a b : expr) : expr := EBin (BCmp CGt) a b.
+Definition plus (a b : expr) : expr := ENary NSum [a; b].
+
+(* lower_inst ignores statement conditions: `1 if <p>x > 2 else 3` is 3 *)
+Definition wit_cond : list bphase :=
+  ph1 [BStmt (KAssign "<p>z" None (EIf (gt (EVar "<p>x") (EInt 2)) (EInt 1) (EInt 3)) [])].
+Lemma cond_refuted ff um sw nf : ~ pipeline_statement false ff um sw nf.
+Proof.
+  destruct ff, um, sw, nf;
+    (eapply (refute _ _ _ _ _ wit_cond _ [("<p>x", VInt 3); ("<p>z", VInt 0)] 1 "pa" ["<p>z"]);
+     [vm_compute; reflexivity|vm_compute; reflexivity|reflexivity|reflexivity|vm_compute; reflexivity]).
+Qed.
+
+(* do v = lo, hi instead of hi - 1: one trip too many *)
+Definition wit_loop : list bphase :=
+  ph1 [BStmt (KAssign "<p>z" None (plus (EVar "<p>z") (EVar "i")) [("i", EInt 0, EInt 3)])].
+Lemma ubound_refuted ff sw nf : ~ pipeline_statement true ff false sw nf.
+Proof.
+  destruct ff, sw, nf;
+    (eapply (refute _ _ _ _ _ wit_loop _ [("<p>z", VInt 0)] 1 "pa" ["<p>z"]);
+     [vm_compute; reflexivity|vm_compute; reflexivity|reflexivity|reflexivity|vm_compute; reflexivity]).
+Qed.
+
+(* no goto 999 after SwitchPhase: the statements after it run *)
+Definition wit_switch : list bphase :=
+  [mkB "pa" "pa" [BStmt (KSwitch "pb"); BStmt (KAssign "<p>z" None (EInt 7) [])];
+   mkB "pb" "pb" [BStmt (KAssign "<p>z" None (plus (EVar "<p>z") (EInt 1)) [])]].
+Lemma switch_refuted ff nf : ~ pipeline_statement true ff true false nf.
+Proof.
+  destruct ff, nf;
+    (eapply (refute _ _ _ _ _ wit_switch _ [("<p>z", VInt 0)] 1 "pa" ["<p>z"]);
+     [vm_compute; reflexivity|vm_compute; reflexivity|reflexivity|reflexivity|vm_compute; reflexivity]).
+Qed.
+
+(* default successor assigned after the call: a SwitchPhase is overwritten *)
+Lemma next_refuted ff : ~ pipeline_statement true ff true true false.
+Proof.
+  destruct ff;
+    (eapply (refute _ _ _ _ _ wit_switch _ [("<p>z", VInt 0)] 2 "pa" ["<p>z"]);
+     [vm_compute; reflexivity|vm_compute; reflexivity|reflexivity|reflexivity|vm_compute; reflexivity]).
+Qed.
+
+(* `!=` printed as it is: the module does not compile *)
+Definition wit_ne : fprog :=
+  [mkPhase "pa" "pa" [Build_stmt 0 [] (EBool true)
+                        (KAssign "<p>f" None (EBin (BCmp CNe) (EVar "<p>x") (EInt 2)) [])]].
+Lemma ne_refuted : ~ compiles_statement false.
+Proof. intros H. specialize (H wit_ne). discriminate. Qed.
+
+(* ---------- non-vacuity: a program with loops, guards, a conditional expression, calls, yields,
+   a failure and a switch satisfies the hypotheses, and both models are defined on it ---------- *)
+Definition ex_prog : list bphase :=
+  [mkB "pa" "pb"
+     [BStmt (KAssign "<p>x" None (plus (EVar "<p>x") (EInt 1)) []);
+      BStmt (KCall ["a"] "<builtin>array" [EInt 3] []);
+      BStmt (KAssign "a" (Some (EVar "i")) (ENary NProd [EVar "i"; EVar "<p>x"]) [("i", EInt 0, EInt 3)]);
+      BStmt (KAssign "<p>s" None (plus (EVar "<p>s") (EBin BSub (EVar "a") (EVar "j")))
+                     [("i", EInt 0, EInt 2); ("j", EInt 0, plus (EVar "i") (EInt 1))]);
+      BStmt (KCall ["yt"] "<func>rhs" [EVar "<t>"; EVar "<state>y"] []);
+      BStmt (KAssign "<state>y" None (EVar "yt") []);
+      BIf (gt (EVar "<p>x") (EInt 2));
+      BStmt (KAssign "<p>z" None (EIf (EBin (BCmp CNe) (EVar "<p>x") (EInt 3)) (EInt 1) (EInt 2)) []);
+      BStmt (KSwitch "pa");
+      BEndIf; BElse;
+      BStmt (KCall ["<p>u"; "<p>v"] "<func>two" [EVar "<p>x"] []);
+      BEndElse;
+      BStmt (KYield "y" "final" (EVar "<t>") (EVar "<state>y"));
+      BStmt (KAssign "<t>" None (plus (EVar "<t>") (EVar "<dt>")) [])];
+   mkB "pb" "pa"
+     [BIf (gt (EVar "<p>s") (EInt 5)); BStmt KFail; BEndIf;
+      BStmt (KYield "y" "mid" (plus (EVar "<t>") (EInt 5)) (EVar "<state>y"))]].
+Definition ex_init : list (var * val) :=
+  [("<t>", VInt 0); ("<dt>", VInt 1); ("<p>x", VInt 1); ("<p>s", VInt 0); ("<p>z", VInt 0);
+   ("<p>u", VInt 0); ("<p>v", VInt 0); ("<state>y", VArr [1; 2; 3])].
+Definition ex_P : fprog :=
+  match build_prog true true st_of "<exec>" ex_prog with Some P => P | None => [] end.
+Definition ex_univ : list var :=
+  ["<t>"; "<p>x"; "<p>s"; "<p>z"; "<p>u"; "<p>v"; "<state>y"; "<ret_time_id>y"; "<ret_time>y"; "<ret_state>y"].
+
+Example ex_hypotheses :
+  build_prog true true st_of "<exec>" ex_prog = Some ex_P /\ supported st_of ex_P = true /\
+  init_ok ps_of (mk_store ex_init) /\ compiles true ex_P = true.
+Proof.
+  split; [vm_compute; reflexivity|]. split; [vm_compute; reflexivity|].
+  split; [apply init_ok_ps; reflexivity|vm_compute; reflexivity].
+Qed.
+
+(* after 1..5 calls both models are defined (no FOUndef / IOCrash), agree on every field, and the
+   runs go through a switch (call 3) and a failed step *)
+Example ex_runs : forall n, (n <= 5)%nat ->
+  let t := fcalls F03 true true true true true true ["final"; "mid"] st_of ex_P n (mk_store ex_init) "pa" in
+  let i := isteps F03 true ["final"; "mid"] ps_of ex_P n (mk_store ex_init) empty "pa" in
+  defined_pair t i && agree_on ex_univ t i = true.
+Proof.
+  intros n Hn. do 6 (destruct n as [|n]; [vm_compute; reflexivity|]). lia.
+Qed.
